@@ -55,6 +55,10 @@ def Out.accepted : Out → Option (String × List Nat × List Bytes)
   | .ok t ns bs => some (t, ns, bs)
   | _ => none
 
+def Out.rejected : Out → Option String
+  | .reject r => some r
+  | _ => none
+
 def Out.panicSite : Out → Option String
   | .panic s => some s
   | _ => none
@@ -635,6 +639,17 @@ def authAck (trusted : Bool) (pl : Bytes) : Res :=
      else ⟨.ok "authack" [1, if pl.head? ≠ some 0 then 1 else 0] [], [], 1⟩)
   else ⟨.ok "authack" [0, 0] [], [], 1⟩
 
+/-- tick.go GetMPDone. `ours` = a getmp request of this connection is pending (c.GetMP not empty), the global
+    ticket is taken and it is THIS connection's: the only state in which the payload is looked at -
+    `if len(pl) < 1 || pl[0] == 0 { <-c.GetMP } else if c.SendGetMP() != nil …` (the index stands behind the
+    short-circuit `||`). In every other state the handler leaves on a length test or without reading anything.
+    nums = [0: the exchange is over, the ticket is given back | 1: the peer has more, the next getmp is sent]. -/
+def getMPDone (ours : Bool) (pl : Bytes) : Res :=
+  if !ours then ⟨.ok "getmpdone-idle" [] [], [], 1⟩ else
+  if pl.length < 1 then ⟨.ok "getmpdone" [0] [], [], 1⟩ else
+  if !indexOk pl.length 0 then ⟨.panic "GetMPDone:pl[0]", [], 1⟩ else
+  ⟨.ok "getmpdone" [if pl.head? = some 0 then 0 else 1] [], [], 1⟩
+
 /-! ### core.go FetchMessage: one complete message at the start of `wire` -/
 
 structure FetchEnv where
@@ -684,6 +699,7 @@ structure Env where
   authorized : Bool
   pendingGetData : Option Nat   -- getdata: bytes waiting in c.unfinished_getdata (`none`: nil)
   trusted : Bool            -- cmd.trusted: the message came signed / through the encrypted channel
+  getmpOurs : Bool := false -- getmpdone: a getmp request is pending and the global ticket is this connection's
 
 def parse (E : Env) (cmd : String) (pl : Bytes) : Res :=
   if cmd = "version" then handleVersion pl
@@ -704,6 +720,7 @@ def parse (E : Env) (cmd : String) (pl : Bytes) : Res :=
   else if cmd = "getmp" then (if E.authorized then processGetMP pl else ⟨.ok "ignored" [] [], [], 1⟩)
   else if cmd = "xauth" then authRcvd E.authGot pl
   else if cmd = "authack" then authAck E.trusted pl
-  else ⟨.ok "no-parse" [] [], [], 1⟩   -- ping, getaddr, notfound, sendheaders, getmpdone, filter*, unknown: payload not indexed
+  else if cmd = "getmpdone" then getMPDone E.getmpOurs pl
+  else ⟨.ok "no-parse" [] [], [], 1⟩   -- ping, getaddr, notfound, sendheaders, filter*, unknown: payload not indexed
 
 end GocoinV.NetParse
